@@ -56,6 +56,12 @@ structure Valid (p : Params) (pers : Nat) : Prop where
   paCID : pers = perspectiveServer → TypedOpt (fun pa => 0 < pa.connID.length) p.preferredAddress
   minAck : TypedOpt (fun m => m / microsecond * microsecond ≤ p.maxAckDelay / millisecond * millisecond) p.minAckDelay
 
+/-- the ranges `UnmarshalFromSessionTicket` enforces on the values a ticket carries -/
+structure ValidTicket (p : Params) : Prop where
+  bidi : p.maxBidiStreamNum ≤ maxStreamCount
+  uni : p.maxUniStreamNum ≤ maxStreamCount
+  cidLimit : minActiveConnectionIDLimit ≤ p.activeConnectionIDLimit
+
 /-- an address survives the round trip iff its port and its address are non-zero (`readPreferredAddress`
     leaves the field at the invalid zero `netip.AddrPort` otherwise) -/
 def normAddr : Option (Bytes × Nat) → Option (Bytes × Nat)
